@@ -38,6 +38,7 @@ func genHook(t *rapid.T, w *chain.World) (*chain.Script, string) {
 func prop(t *rapid.T) {
 	ev.Case()
 	w := chain.NewWorld()
+	w.CancelEvery = 3 // every third request's context is done already (client gone, deadline passed): a panic is a panic
 	opts := model.Options{NotAllowed: rapid.Bool().Draw(t, "handle405")}
 	cfg := chain.ProgCfg{
 		MaxDepth: rapid.IntRange(0, 2).Draw(t, "maxDepth"), MaxMw: 2, MaxStmts: 4, Fallbacks: true, Dynamic: true,
@@ -387,3 +388,60 @@ func propHooks(t *rapid.T) {
 }
 
 func TestPropHooks(t *testing.T) { rapid.Check(t, propHooks) }
+
+// propPanicInOtherHandlerKinds: the handlers behind the registration shortcuts - StaticFunc, StaticFile, Controller,
+// Resource actions, NotFound / NotAllowed handlers, every method shortcut - are handlers like any other: a panic in one
+// of them reaches the OnPanic hook exactly once, or leaves ServeHTTP when there is none.
+type panicCtl struct{}
+
+func (panicCtl) AddRoutes(r *rux.Router) { r.GET("/boom", func(c *rux.Context) { panic("controller") }) }
+
+type panicRes struct{}
+
+func (*panicRes) Index(c *rux.Context) { panic("resource index") }
+func (*panicRes) Show(c *rux.Context)  { panic("resource show") }
+
+func propPanicInOtherHandlerKinds(t *rapid.T) {
+	ev.Case()
+	hook := rapid.Bool().Draw(t, "hookInstalled")
+	r := rux.New(rux.HandleMethodNotAllowed)
+	ran := 0
+	if hook {
+		r.OnPanic = func(c *rux.Context) { ran++; c.SetStatus(500) }
+	}
+	r.StaticFunc("/asset.js", func(c *rux.Context) { panic("static func") })
+	r.Controller("/ctl", panicCtl{})
+	r.Resource("/", &panicRes{})
+	r.NotFound(func(c *rux.Context) { panic("not found handler") })
+	r.NotAllowed(func(c *rux.Context) { panic("not allowed handler") })
+	shortcuts := map[string]func(string, rux.HandlerFunc, ...rux.HandlerFunc) *rux.Route{"GET": r.GET, "POST": r.POST, "PUT": r.PUT, "PATCH": r.PATCH,
+		"DELETE": r.DELETE, "OPTIONS": r.OPTIONS, "HEAD": r.HEAD, "CONNECT": r.CONNECT, "TRACE": r.TRACE}
+	for m, f := range shortcuts {
+		f("/m/"+strings.ToLower(m), func(c *rux.Context) { panic("shortcut") })
+	}
+	r.Any("/any", func(c *rux.Context) { panic("any") })
+	type probe struct{ m, p string }
+	probes := []probe{{"GET", "/asset.js"}, {"GET", "/ctl/boom"}, {"GET", "/panicres"}, {"GET", "/panicres/7"}, {"GET", "/nowhere"}, {"PUT", "/asset.js"}, {"TRACE", "/any"}, {"CONNECT", "/any"}}
+	for m := range shortcuts {
+		probes = append(probes, probe{m, "/m/" + strings.ToLower(m)})
+	}
+	q := rapid.SampledFrom(probes).Draw(t, "probe")
+	ev.Eval()
+	ran = 0
+	var escaped any
+	rec := httptest.NewRecorder()
+	func() {
+		defer func() { escaped = recover() }()
+		r.ServeHTTP(rec, httptest.NewRequest(q.m, q.p, nil))
+	}()
+	if hook && (ran != 1 || escaped != nil) {
+		t.Fatalf("%s %s: a handler panics, the OnPanic hook ran %d times, panic leaving ServeHTTP: %v (answer %d)", q.m, q.p, ran, escaped, rec.Code)
+	}
+	if !hook && escaped == nil {
+		t.Fatalf("%s %s: a handler panics and no hook is installed, but nothing left ServeHTTP (answer %d %q)", q.m, q.p, rec.Code, rec.Body.String())
+	}
+	ev.Class("panic-in:" + q.m + " " + q.p)
+	ev.NonTrivial(fmt.Sprint(hook, q), func() string { return fmt.Sprintf("hook=%v %s %s", hook, q.m, q.p) })
+}
+
+func TestPropPanicInOtherHandlerKinds(t *testing.T) { rapid.Check(t, propPanicInOtherHandlerKinds) }
